@@ -937,7 +937,8 @@ pub fn judge(inv: &mut Inv, prev_clean: Option<&BTreeSet<usize>>, prev_failed: &
                         let recorded = sh.attr.get(&st.uid).map(|r| r.deps.clone()).unwrap_or_default();
                         let now = world.attributed(proj).get(&st.uid).map(|r| r.deps.clone()).unwrap_or_default();
                         let inc = world.true_includes(st.uid);
-                        st.uid != pu && recorded.iter().chain(now.iter()).chain(inc.iter()).any(|d| refcanon(d) == x) && !proj.ancestors(st.uid).contains(&pu)
+                        // (also a step whose record names a file that an edit has since made its own output)
+                        recorded.iter().chain(now.iter()).chain(inc.iter()).any(|d| refcanon(d) == x) && !proj.ancestors(st.uid).contains(&pu)
                     }),
                 };
                 if justified || sh.regen_since_load || world.next.is_some() {
